@@ -316,6 +316,9 @@ class PathFacts:
             rv = s['rv']
             if rv['k'] == 'use' and 'k' in rv['x'] and 'scalar' in rv['x']['k'] and 'def' not in rv['x']['k']:
                 script.append(('set', p['l'], rv['x']['k']['scalar']['bits']))
+            elif rv['k'] == 'agg' and rv.get('ak') == 'adt' and not rv['ops']:
+                # unit variant (e.g. Queue::Blocking, None): tracked as a symbolic constant
+                script.append(('set', p['l'], 'agg:%s::%s' % (rv['adt'], rv['variant'])))
             elif rv['k'] == 'use' and ('c' in rv['x'] or 'm' in rv['x']) and not (rv['x'].get('c') or rv['x'].get('m'))['pr']:
                 script.append(('copy', p['l'], (rv['x'].get('c') or rv['x'].get('m'))['l']))
             else:
@@ -351,6 +354,19 @@ class PathFacts:
             base = frozenset(f for f in fs if f[0] != '~c')
             out.add(base | frozenset(('~c', l, v) for l, v in cur.items()))
         return out
+
+    @staticmethod
+    def tracked_const(fs, local):
+        """constant known to be held by a plain local on this path (bits as str, or 'agg:<adt>::<variant>'), else None"""
+        for f in fs:
+            if f[0] == '~c' and f[1] == local:
+                return f[2]
+        return None
+
+    def at_call(self, b):
+        """path fact sets just before the terminator of block b, with the block's own constant assignments applied"""
+        st = self.apply_kills(self.at_entry(b), set() if self.history else {k for k in self.block_kills(b)})
+        return self.track_consts(b, st)
 
     def edge_feasible(self, b, lab, fs):
         t = self.blocks[b]['t']
